@@ -268,6 +268,10 @@ def run(w: World, rep: Report):
         'rewound flag tape. Order-independence of greedy matching rests on a signature verifying under at most '
         'one of distinct keys (cryptographic) and is not decided. make_multisig_lock is checked in the '
         'template rules.')
+    # each pair check is delegated to OP_CHECK_SIG: its flag/message/verdict rules are obligations here too
+    from .report import depend
+    depend(rep, w, 'rules_c02', ('C02.R2', 'C02.R3', 'C02.R4'), 'C03.TD2',
+           'the single-signature check the multisig delegates to satisfies its own rules (C02.R2-R4 re-evaluated)', floor=10)
     try:
         from . import rules_templates as rt2
         if hasattr(rt2, 'c03_builders'):
